@@ -94,6 +94,15 @@ fn size_text(rng: &mut Rng, allow_bad: bool) -> (String, bool) {
     (v.to_string(), true)
 }
 
+/// True when the error is a failure to *connect* to the loopback simulator (environment, not the
+/// code under test).
+fn is_connect_error(e: &Error) -> bool {
+    match e {
+        Error::AWS(AWSError::S3ListObjectsError(re)) | Error::AWS(AWSError::S3GetObjectRequestError(re)) => re.is_connect(),
+        _ => false,
+    }
+}
+
 fn final_segment(key: &str) -> &str {
     key.rsplit('/').next().unwrap_or(key)
 }
@@ -173,6 +182,7 @@ fn run_list_archive(obs: &mut Obs, rng: &mut Rng, idx: u64) {
                 return;
             }
             match res {
+                Err(e) if is_connect_error(&e) => obs.inconclusive(format!("loopback connect failed: {e:?}")),
                 Err(e) => obs.violation("archive listing of a well-formed bucket fails", format!("{e:?}"), replay),
                 Ok(ids) => {
                     let got: Vec<String> = ids.iter().map(|i| i.name().to_string()).collect();
@@ -242,6 +252,7 @@ fn run_list_realtime(obs: &mut Obs, rng: &mut Rng, idx: u64) {
     let replay = json!({"scenario": "realtime-list", "index": idx, "prefix": prefix, "max_keys": max_keys, "keys": under.iter().take(30).map(|o| o.key.clone()).collect::<Vec<_>>(), "requests": log});
     match r {
         Err(p) => obs.violation(format!("list_chunks_in_volume {}", p.signature()), p.message, replay),
+        Ok(Err(e)) if is_connect_error(&e) => obs.inconclusive(format!("loopback connect failed: {e:?}")),
         Ok(Err(e)) => obs.violation("real-time listing of a well-formed bucket fails", format!("{e:?}"), replay),
         Ok(Ok(ids)) => {
             let ok_req = log.len() == 1 && {
@@ -411,6 +422,7 @@ fn run_download(obs: &mut Obs, rng: &mut Rng, idx: u64, big: usize) {
     }
     match r {
         Err(p) => obs.violation(format!("download {}", p.signature()), format!("{} (object of {} bytes, status {})", p.message, bytes.len(), status), replay),
+        Ok(Err(e)) if is_connect_error(&e) => obs.inconclusive(format!("loopback connect failed: {e:?}")),
         Ok(res) => match (status, res) {
             (0, Err(Error::AWS(AWSError::S3ObjectNotFoundError))) | (404, Err(Error::AWS(AWSError::S3ObjectNotFoundError))) => obs.count("missing_object_is_not_found_error", 1),
             (0, other) | (404, other) => obs.violation("missing object is not mapped to the not-found error", format!("{:?}", other.map(|_| "Ok").map_err(|e| format!("{e:?}"))), replay),
@@ -463,7 +475,7 @@ distinct = distinct (scenario kind, object count class, key hostility, nesting, 
         "download keys are built from identifiers, so only URL-safe names are downloaded; XML-hostile characters are exercised in listings".into(),
     ];
     ctx.floor_evaluations = 50;
-    let total: u64 = ctx.tier.pick(360, 400_000);
+    let total: u64 = ctx.tier.pick(360, 200_000);
     let big = ctx.tier.pick(256 * 1024, 4 * 1024 * 1024);
     let seed = ctx.seed;
     par_cases(ctx, total, |i, obs| {
